@@ -27,6 +27,49 @@ Polluters == {"incNum", "redefExc", "redefLib", "mutLib", "failDeep", "declare",
 Pristine == [num |-> 0, excctor |-> "builtin", libctor |-> "builtin", libdef |-> "clean", frames |-> 0, names |-> {}, libs |-> {},
              respdef |-> "clean", modpath |-> "fresh"]
 
+(* ------------------------------------------------------------------ the process-wide variables of the code
+   Every package-level variable of DemoHn/Zn (go/types inventory, bound by the driver: a new or re-typed variable is
+   "unmodelled" until it is classified here) with the reason why it cannot carry anything from one execution to the next:
+     table       lookup data, written only by its initialiser
+     constvalue  a predefined value without in-place mutators
+     perexec     the map of predefined values: every execution takes its own copy with FRESH mutable members (cells num, excctor)
+     classmodel  a type object: its constructor / defaults are read-only for programs, instances get their own copies
+     library     a registered library: its export table is read-only, importing it changes only the importing execution
+     module      the shared native-code module object (immutable)
+     hook        verification hook (nil unless a check installs it) *)
+GLOBALS == <<
+  [g |-> "pkg/error.sigTypeMap", type |-> "map[uint8]string", kind |-> "table", cells |-> "none"],
+  [g |-> "pkg/error.typeNameMap", type |-> "map[string]string", kind |-> "table", cells |-> "none"],
+  [g |-> "pkg/syntax.IDContinue", type |-> "[]rune", kind |-> "table", cells |-> "none"],
+  [g |-> "pkg/syntax.idRange", type |-> "[]syntax.runePair", kind |-> "table", cells |-> "none"],
+  [g |-> "pkg/syntax.whiteSpaces", type |-> "[]rune", kind |-> "table", cells |-> "none"],
+  [g |-> "pkg/runtime.NativeCodeModule", type |-> "*runtime.Module", kind |-> "module", cells |-> "none"],
+  [g |-> "pkg/runtime.VerifHook", type |-> "func(vm *runtime.VM, ev string, name string, n int)", kind |-> "hook", cells |-> "none"],
+  [g |-> "pkg/common.CLASS_HttpRequest", type |-> "*value.ClassModel", kind |-> "classmodel", cells |-> "libctor+libdef"],
+  [g |-> "pkg/common.CLASS_HttpResponse", type |-> "*value.ClassModel", kind |-> "classmodel", cells |-> "libctor+respdef"],
+  [g |-> "pkg/syntax/zh.markOperators", type |-> "[]rune", kind |-> "table", cells |-> "none"],
+  [g |-> "pkg/syntax/zh.markPunctuations", type |-> "[]rune", kind |-> "table", cells |-> "none"],
+  [g |-> "pkg/syntax/zh.markQuotes", type |-> "[]rune", kind |-> "table", cells |-> "none"],
+  [g |-> "pkg/syntax/zh.quoteMatchMap", type |-> "map[rune]rune", kind |-> "table", cells |-> "none"],
+  [g |-> "pkg/exec.GlobalValues", type |-> "map[string]runtime.Element", kind |-> "perexec", cells |-> "num+excctor"],
+  [g |-> "pkg/exec.VerifGate", type |-> "func(z *exec.Interpreter, point string)", kind |-> "hook", cells |-> "none"],
+  [g |-> "pkg/exec.ZnConstBoolFalse", type |-> "*value.Bool", kind |-> "constvalue", cells |-> "none"],
+  [g |-> "pkg/exec.ZnConstBoolTrue", type |-> "*value.Bool", kind |-> "constvalue", cells |-> "none"],
+  [g |-> "pkg/exec.ZnConstDisplayFunc", type |-> "*value.Function", kind |-> "constvalue", cells |-> "none"],
+  [g |-> "pkg/exec.ZnConstExceptionClass", type |-> "*value.ClassModel", kind |-> "classmodel", cells |-> "excctor"],
+  [g |-> "pkg/exec.ZnConstGetRandomFloat", type |-> "*value.Function", kind |-> "constvalue", cells |-> "none"],
+  [g |-> "pkg/exec.ZnConstNull", type |-> "*value.Null", kind |-> "constvalue", cells |-> "none"],
+  [g |-> "pkg/exec.globalValues", type |-> "map[string]runtime.Element", kind |-> "perexec", cells |-> "num+excctor"],
+  [g |-> "pkg/server.VerifPMEvent", type |-> "func(ev string, pid int, state uint8, refCount int, nChilds int, n int)", kind |-> "hook", cells |-> "none"],
+  [g |-> "pkg/server.VerifPMGate", type |-> "func(point string, pid int, state uint8)", kind |-> "hook", cells |-> "none"],
+  [g |-> "stdlib/json.jsonLIB", type |-> "*runtime.Library", kind |-> "library", cells |-> "libs"],
+  [g |-> "stdlib/file.fileLIB", type |-> "*runtime.Library", kind |-> "library", cells |-> "libs"]
+>>
+GlobalKinds == {"table", "constvalue", "perexec", "classmodel", "library", "module", "hook"}
+ASSUME \A j \in 1..Len(GLOBALS) : GLOBALS[j].kind \in GlobalKinds
+EmitGlobals == PrintT(ToJson([k |-> "globals", t |-> GLOBALS]))
+ASSUME EmitGlobals
+
 (* ------------------------------------------------------------------ sequential part *)
 VARIABLES cells,      \* process-wide cells (only meaningful for Design = "ascoded")
           seq, done, obs,
